@@ -10,7 +10,7 @@ From Verif.Eco Require Import RangeCore.
 From Verif.Eco.Cargo Require Version.
 
 (* operators := []string{">=", "<=", "!=", ">", "<", "="} *)
-(* the list is generated from the Go source on every run (tools/gen -> Gen/Operators.v) *)
+(* generated from the Go source on every run (tools/gen -> Gen/Operators.v) *)
 Definition cargo_ops : list bytes :=
   Eval cbv delta [Verif.Gen.Operators.cargo_ops] in Verif.Gen.Operators.cargo_ops.
 
